@@ -237,6 +237,8 @@ impl ProvidedBufferRing {
         ))
       })?;
     self.provide(bid, self.pool.acquire());
+    #[cfg(rzmq_verif)]
+    crate::verif::count("uring.recv_ring.take");
     let chunk = PooledChunk {
       buf,
       filled,
@@ -273,6 +275,8 @@ impl ProvidedBufferRing {
         ))
       })?;
     self.provide(bid, buf);
+    #[cfg(rzmq_verif)]
+    crate::verif::count("uring.recv_ring.reprovide");
     Ok(())
   }
 }
